@@ -21,8 +21,8 @@ type Opt struct {
 	Desc        string
 	Defaults    []string
 	DefaultsAPI []string // assigned to Option.Default by the program after the parser is built (the field has no default tag)
-	Required    string // tag text ("" = not given)
-	Optional    string // tag text
+	Required    string   // tag text ("" = not given)
+	Optional    string   // tag text
 	OptionalVal []string
 	Env         string
 	EnvDelim    string
